@@ -174,13 +174,13 @@ theorem secKeywords_ok (length : Int) (kws : List Bytes) (h : listOk kws = true)
       (keywordsField 12) (by simp [fieldParsers]) (hr _)
 
 def secSource (species name : Bytes) (taxon : List Bytes) : Section :=
-  ⟨bs "SOURCE      " ++ (addPrefix indent (wrapSpace species) ++ 10 ::
-      (bs "  ORGANISM  " ++ (addPrefix indent (wrapSpace name) ++ 10 ::
+  ⟨bs "SOURCE      " ++ (addPrefix indent (species) ++ 10 ::
+      (bs "  ORGANISM  " ++ (addPrefix indent (name) ++ 10 ::
       (indent ++ (addPrefix indent (wrapSpace (joinWith (bs "; ") taxon ++ [46])) ++ [10]))))),
-   fun (f, t, o, r) => ({ f with species := wrapSpace species, organism := name, taxon := taxon }, t, o, r), 1⟩
+   fun (f, t, o, r) => ({ f with species := species, organism := name, taxon := taxon }, t, o, r), 1⟩
 
 theorem secSource_ok (length : Int) (species name : Bytes) (taxon : List Bytes)
-    (hs : noCR (wrapSpace species) = true) (hn : organismOk name = true) (ht : taxonOk taxon = true) :
+    (hs : noCR (species) = true) (hn : organismOk name = true) (ht : taxonOk taxon = true) :
     SecOK length (secSource species name taxon) := by
   unfold secSource
   apply secOK_of_tryAll
@@ -188,11 +188,11 @@ theorem secSource_ok (length : Int) (species name : Bytes) (taxon : List Bytes)
   · intro rest; simp [startsField, refStop, refAltList, bs, List.isPrefixOf]; decide
   · intro s rest hrest
     obtain ⟨f, t, o, r⟩ := s
-    have e2 : bs "SOURCE      " ++ (addPrefix indent (wrapSpace species) ++ 10 ::
-        (bs "  ORGANISM  " ++ (addPrefix indent (wrapSpace name) ++ 10 ::
+    have e2 : bs "SOURCE      " ++ (addPrefix indent (species) ++ 10 ::
+        (bs "  ORGANISM  " ++ (addPrefix indent (name) ++ 10 ::
         (indent ++ (addPrefix indent (wrapSpace (joinWith (bs "; ") taxon ++ [46])) ++ [10]))))) ++ rest =
-        bs "SOURCE      " ++ (addPrefix indent (wrapSpace species) ++ 10 ::
-        (bs "  ORGANISM  " ++ (addPrefix indent (wrapSpace name) ++ 10 ::
+        bs "SOURCE      " ++ (addPrefix indent (species) ++ 10 ::
+        (bs "  ORGANISM  " ++ (addPrefix indent (name) ++ 10 ::
         (indent ++ (addPrefix indent (wrapSpace (joinWith (bs "; ") taxon ++ [46])) ++ 10 :: rest))))) := by
       simp [List.append_assoc]
     rw [e2]
